@@ -53,7 +53,7 @@ FAMILIES = {
     "quick": [
         # every model with 1..2 states and weights 0/1 (all zero patterns), every canonical state map,
         # every start/final restriction, every sequence of length 1..3
-        ("exh2", "hmm", hmm_consts(1, 2, 1, 3, 1, [0, 1], 0, [1, 3], "canon", "all", "few"), None, 600),
+        ("exh2", "hmm", hmm_consts(1, 2, 1, 3, 1, [0, 1], 0, [1, 3], "canon", "all", "one"), None, 600),
         # random walks through the full space: 1..3 states, weights 0..2, emissions 0..3, any state map,
         # any restriction, 1..2 sequences of length 1..4, any pair of queried state sets
         ("sim3", "hmm", hmm_consts(1, 3, 1, 4, 2, [0, 1, 2], 0, [0, 1, 2, 3], "all", "all", "all"), 4000, 600),
@@ -66,7 +66,7 @@ FAMILIES = {
         ("sim3", "hmm", hmm_consts(1, 3, 1, 4, 2, [0, 1, 2], 0, [0, 1, 2, 3], "all", "all", "all"), 30000, 3000),
         ("sim3sym", "hmm", hmm_consts(2, 3, 2, 4, 2, [0, 1, 2], 0, [0, 1, 2, 3], "all", "all", "all", nsym=3), 5000, 3000),
         # spot checks beyond the exhaustive bounds: 4 states, length 5..6 (4096 paths), rows are compositions of 4
-        ("sim4", "hmm", hmm_consts(4, 4, 5, 6, 1, [0, 1, 2, 3, 4], 4, [0, 1, 2, 3], "all", "all", "all"), 40, 3000),
+        ("sim4", "hmm", hmm_consts(4, 4, 5, 6, 1, [0, 1, 2, 3, 4], 4, [0, 1, 2, 3], "all", "all", "all"), 25, 3000),
         ("mix3", "mix", mix_consts(1, 3, [0, 1, 2], [0, 1, 3], 2), None, 1200),
         ("mixsim", "mix", mix_consts(3, 4, [0, 1, 2, 3], [0, 1, 2, 3], 3), 5000, 600),
     ],
